@@ -52,12 +52,21 @@ func Range(c Collection, ids []string, filter *Filter, sort []string, size uint,
 	// Pagination
 	var page Resources
 
-	skip := int(num * size)
+	// The positions are computed with unsigned integers because a size
+	// greater than the maximum value of an int is a valid way of asking
+	// for everything.
+	skip := num * size
+	length := uint(len(col.col))
 
-	if skip >= len(col.col) {
+	if skip >= length {
 		col = sortedResources{}
 	} else {
-		for i := skip; i < len(col.col) && i < skip+int(size); i++ {
+		end := length
+		if size < length-skip {
+			end = skip + size
+		}
+
+		for i := skip; i < end; i++ {
 			page = append(page, col.col[i])
 		}
 	}
